@@ -89,7 +89,10 @@ def main():
         for prop in meta.get("silent_for", [meta.get("property")]):
             if props and prop not in props:
                 continue
-            tasks.append((prop, os.path.join(d, "patch.diff"), "SILENT"))
+            # a refactor the checks are known to alarm on (recorded brittleness, DESIGN §10):
+            # replayed and reported, but expected
+            kind = "BRITTLE" if prop in meta.get("known_false_alarm", {}) else "SILENT"
+            tasks.append((prop, os.path.join(d, "patch.diff"), kind))
     if seeded:
         for d in sorted(glob.glob(os.path.join(V, "seeded", "*"))):
             mf = os.path.join(d, "meta.json")
@@ -102,9 +105,15 @@ def main():
                 tasks.append((prop, os.path.join(d, "patch.diff"), None))
     rc = 0
     with cf.ThreadPoolExecutor(max_workers=jobs) as ex:
-        futs = [ex.submit(run_one, p, patch, tier, None, k == "SILENT") for p, patch, k in tasks]
-        for f in futs:
+        futs = [ex.submit(run_one, p, patch, tier, None, k in ("SILENT", "BRITTLE")) for p, patch, k in tasks]
+        for f, (_, _, kind) in zip(futs, tasks):
             prop, patch, status, detail = f.result()
+            if kind == "BRITTLE":
+                status = "KNOWN-BRITTLE" if status == "FALSE-ALARM" else ("SILENT(was-brittle)" if status == "SILENT" else status)
+                print(f"{status:28s} {prop} {os.path.relpath(patch, V)}")
+                if status == "KNOWN-BRITTLE":
+                    print("    " + detail.replace("\n", "\n    "))
+                continue
             print(f"{status:28s} {prop} {os.path.relpath(patch, V)}")
             if status not in ("KILLED", "SILENT"):
                 rc = 1
